@@ -29,6 +29,18 @@ pub struct Replay {
     pub origin: String,
     pub original_size: usize,
     pub run: IoRun,
+    /// Set when the violation only shows after the runs that preceded it in the batch (the code under
+    /// test keeps process-global state): the replay then re-executes the batch prefix sequentially.
+    #[serde(default)]
+    pub prefix: Option<Prefix>,
+}
+
+#[derive(Serialize, Deserialize, Clone, Debug)]
+pub struct Prefix {
+    /// all enumeration cases first, then seeded runs 0..=seeded_upto (None: stop inside the enumeration)
+    pub enumeration_upto: u64,
+    pub seeded_upto: Option<u64>,
+    pub quick: bool,
 }
 
 fn target_viol<'a>(o: &'a Outcome, prop: &str, inv: Option<&str>) -> Option<&'a Viol> {
@@ -207,6 +219,7 @@ fn report_hang(prop: &str, opts: &Opts, origin: String, run: &IoRun) -> ! {
         origin: origin.clone(),
         original_size: size_of(run),
         run: run.clone(),
+        prefix: None,
     };
     let path = opts.replay_dir.join(format!("{}-{}-no_termination.json", prop, opts.seed));
     let _ = std::fs::create_dir_all(&opts.replay_dir);
@@ -456,6 +469,7 @@ pub fn run_check(prop: &str, opts: &Opts) -> i32 {
             origin,
             original_size: size_of(&run),
             run: min.clone(),
+            prefix: None,
         };
         let path = opts
             .replay_dir
@@ -474,19 +488,78 @@ pub fn run_check(prop: &str, opts: &Opts) -> i32 {
             println!("  {}", l);
         }
         // replay in a fresh process: must fail the same way
-        match common::replay_in_child("io", &path) {
-            Ok(true) => {
-                println!("VIOLATION property={} replay={}", prop, path.display());
-                exit = simcore::EXIT_VIOLATION;
+        let mut reproduced = matches!(common::replay_in_child("io", &path), Ok(true));
+        if !reproduced {
+            // The minimised run fails here but not in a fresh process: the code under test keeps state
+            // across calls that earlier runs of this batch left behind (a process-global cache, a static).
+            // 1. the unminimised run in a fresh process, minimised there with a small budget
+            println!("note: the minimised run does not reproduce in a fresh process; the code under test keeps process-global state between runs");
+            let mut rp2 = rp.clone();
+            rp2.run = run.clone();
+            let _ = std::fs::write(&path, serde_json::to_string_pretty(&rp2).unwrap());
+            if matches!(common::replay_in_child("io", &path), Ok(true)) {
+                let mut cur = run.clone();
+                let mut budget = 60;
+                let mut progress = true;
+                while progress && budget > 0 {
+                    progress = false;
+                    let n = cur.records.len() + cur.fpool.len() + cur.pool.len();
+                    for k in (0..n).rev() {
+                        if budget == 0 {
+                            break;
+                        }
+                        let mut cand = cur.clone();
+                        if k < cand.records.len() {
+                            cand.records.remove(k);
+                        } else if k < cand.records.len() + cand.fpool.len() {
+                            let j = k - cand.records.len();
+                            cand.fpool.remove(j);
+                        } else {
+                            let j = k - cand.records.len() - cand.fpool.len();
+                            cand.pool.remove(j);
+                        }
+                        budget -= 1;
+                        rp2.run = cand.clone();
+                        let _ = std::fs::write(&path, serde_json::to_string_pretty(&rp2).unwrap());
+                        if matches!(common::replay_in_child("io", &path), Ok(true)) {
+                            cur = cand;
+                            progress = true;
+                        }
+                    }
+                }
+                rp2.run = cur.clone();
+                let _ = std::fs::write(&path, serde_json::to_string_pretty(&rp2).unwrap());
+                reproduced = matches!(common::replay_in_child("io", &path), Ok(true));
+                if reproduced {
+                    println!("minimised in fresh processes to size {}", size_of(&cur));
+                }
             }
-            Ok(false) => {
-                eprintln!("HARNESS-ERROR: replay of {} did not reproduce in a fresh process", path.display());
-                return simcore::EXIT_HARNESS;
+            // 2. the batch prefix, sequentially, in a fresh process
+            if !reproduced {
+                let (eu, su) = if let Some(i) = rp.origin.strip_prefix("seeded#") {
+                    (n_enum.saturating_sub(1), i.parse::<u64>().ok())
+                } else {
+                    (rp.origin.strip_prefix("enumeration#").and_then(|i| i.parse().ok()).unwrap_or(0), None)
+                };
+                rp2.run = run.clone();
+                rp2.prefix = Some(Prefix {
+                    enumeration_upto: eu,
+                    seeded_upto: su,
+                    quick,
+                });
+                let _ = std::fs::write(&path, serde_json::to_string_pretty(&rp2).unwrap());
+                reproduced = matches!(common::replay_in_child("io", &path), Ok(true));
+                if reproduced {
+                    println!("reproduced by re-executing the batch prefix sequentially in a fresh process (replay file carries the prefix)");
+                }
             }
-            Err(e) => {
-                eprintln!("HARNESS-ERROR: {}", e);
-                return simcore::EXIT_HARNESS;
-            }
+        }
+        if reproduced {
+            println!("VIOLATION property={} replay={}", prop, path.display());
+            exit = simcore::EXIT_VIOLATION;
+        } else {
+            eprintln!("HARNESS-ERROR: replay of {} did not reproduce in a fresh process, neither alone nor after the batch prefix", path.display());
+            return simcore::EXIT_HARNESS;
         }
     }
     for k in &acc.known_seen {
@@ -609,6 +682,29 @@ pub fn replay(path: &std::path::Path, quiet: bool) -> i32 {
     if let Err(e) = common::self_tests() {
         eprintln!("HARNESS-ERROR: self-test failed: {}", e);
         return simcore::EXIT_HARNESS;
+    }
+    if let Some(pf) = &rp.prefix {
+        // re-execute everything that preceded the run in its batch, in order, on fresh threads of this process
+        let corpus = gen::Corpus::build(0xC0FFEE);
+        let prop: &str = &rp.property;
+        let cases: Vec<IoRun> = match prop {
+            "C02" => enumerate::c02_cases(&corpus, pf.quick),
+            "C03" => enumerate::c03_cases(&corpus, pf.quick),
+            "C11" => enumerate::c11_cases(pf.quick),
+            "C06" => enumerate::c06_cases(&corpus, pf.quick),
+            _ => vec![],
+        };
+        for c in cases.iter().take(pf.enumeration_upto as usize + 1) {
+            let _ = simcore::par::isolated(|| execute(c, false));
+        }
+        if let Some(upto) = pf.seeded_upto {
+            let batch_seed = sub_seed(rp.seed, &format!("iosim/{}", prop));
+            for i in 0..upto {
+                let mut rng = Rng::new(run_seed(batch_seed, i));
+                let run = gen::gen_run(&mut rng, &corpus, prop);
+                let _ = simcore::par::isolated(|| execute(&run, false));
+            }
+        }
     }
     let (tx, rx) = std::sync::mpsc::channel();
     let run = rp.run.clone();
